@@ -8,30 +8,14 @@
 //! u128/i128 arithmetic on every returned signature, the `channel_closed` flag, and the signature is
 //! verified against a closing transaction built independently from scratch.
 use crate::common::*;
-use std::sync::OnceLock;
 
 #[path = "c05_world.rs"]
 pub mod world;
 use world::*;
+#[path = "c07_wire.rs"]
+pub mod wire;
 
 pub struct C07;
-
-const SIDS: [u64; 12] = [1, 2, 3, 4, 5, 6, 10, 11, 12, 20, 21, 22];
-
-/// script bytes per sid (wallet scripts depend only on the fixed test seed)
-fn script_table() -> &'static Vec<(u64, Vec<u8>)> {
-    static T: OnceLock<Vec<(u64, Vec<u8>)>> = OnceLock::new();
-    T.get_or_init(|| {
-        let node = lightning_signer::util::test_utils::init_node(
-            lightning_signer::util::test_utils::TEST_NODE_CONFIG,
-            lightning_signer::util::test_utils::TEST_SEED[1],
-        );
-        SIDS.iter().map(|s| (*s, script_of(&node, *s).to_bytes())).collect()
-    })
-}
-fn script_bytes(sid: u64) -> &'static [u8] {
-    &script_table().iter().find(|(s, _)| *s == sid).unwrap().1
-}
 
 fn close_weight(outs: &[(u64, u64)]) -> u128 {
     let mut size: u128 = 4 + 1 + 41 + 1 + 4;
@@ -53,6 +37,20 @@ fn fee_for_rate(rate: u128, w: u128, hi: bool) -> u128 {
 
 fn pick(rng: &mut Rng, xs: &[u64]) -> u64 {
     *rng.pick(xs)
+}
+
+/// `RANK(<sid>)` in a corpus line -> the byte-order rank of that script
+fn resolve_ranks(line: &str) -> String {
+    let mut out = String::new();
+    let mut rest = line;
+    while let Some(i) = rest.find("RANK(") {
+        out += &rest[..i];
+        let j = rest[i..].find(')').unwrap() + i;
+        let sid: u64 = rest[i + 5..j].parse().unwrap();
+        out += &script_rank(sid).to_string();
+        rest = &rest[j + 1..];
+    }
+    out + rest
 }
 
 struct Dest {
@@ -78,7 +76,7 @@ impl Group for C07 {
         }
     }
     fn corpus(&self) -> Vec<Vec<String>> {
-        let v = |s: &[&str]| s.iter().map(|x| x.to_string()).collect::<Vec<_>>();
+        let v = |s: &[&str]| s.iter().map(|x| resolve_ranks(x)).collect::<Vec<_>>();
         vec![
             // funder closes to its own wallet address, both phases; then no new holder commitment
             v(&[
@@ -90,10 +88,10 @@ impl Group for C07 {
                 "cp 1 0 0 1999000 1000000 0 0",
                 "hold 1 0 1999000 1000000 0 0 1",
                 "revoke 1",
-                "close2 1998000 1000000 1 3 22 1 0 1 20 22 0 0",
-                "close1 2 1 2 1000000 20 22 0 0 1998000 3 22 1 0",
+                "close2 1998000 1000000 1 3 22 RANK(3) 1 0 1 20 22 RANK(20) 0 0",
+                "close1 2 2 0 4294967295 1 2 1000000 20 22 RANK(20) 0 0 1998000 3 22 RANK(3) 1 0",
                 "hold 2 0 1999000 1000000 0 0 1",
-                "close2 1998000 1000000 1 20 22 0 0 1 20 22 0 0",
+                "close2 1998000 1000000 1 20 22 RANK(20) 0 0 1 20 22 RANK(20) 0 0",
             ]),
             // former finding S1 (fixed by 3751e9c): with max_feerate_per_kw = u32::MAX a funder close burning 31 BTC as fee must be refused
             v(&[
@@ -102,7 +100,7 @@ impl Group for C07 {
                 "cp 0 0 0 4999999000 0 0 0",
                 "hold 0 0 4999999000 0 0 0 1",
                 "revoke 0",
-                "close2 1899033614 0 1 1 22 1 0 0 0 0 0 0",
+                "close2 1899033614 0 1 1 22 RANK(1) 1 0 0 0 0 RANK(0) 0 0",
             ]),
             // allowlist at SIGNING time: upfront script X allowlisted at setup, removed before the close ->
             // the close to X must be refused (both entry points); re-added -> signed
@@ -117,10 +115,10 @@ impl Group for C07 {
                 "hold 1 0 1999000 1000000 0 0 1",
                 "revoke 1",
                 "allow",
-                "close2 1998000 1000000 1 10 22 0 0 1 20 22 0 0",
-                "close1 2 1 2 1000000 20 22 0 0 1998000 10 22 0 0",
+                "close2 1998000 1000000 1 10 22 RANK(10) 0 0 1 20 22 RANK(20) 0 0",
+                "close1 2 2 0 4294967295 1 2 1000000 20 22 RANK(20) 0 0 1998000 10 22 RANK(10) 0 0",
                 "allow 10",
-                "close2 1998000 1000000 1 10 22 0 1 1 20 22 0 0",
+                "close2 1998000 1000000 1 10 22 RANK(10) 0 1 1 20 22 RANK(20) 0 0",
             ]),
             // fundee: holder value must be within epsilon of both commitments
             v(&[
@@ -133,9 +131,9 @@ impl Group for C07 {
                 "cp 1 0 0 1000000 1998000 0 0",
                 "hold 1 0 1005000 1993000 0 0 1",
                 "revoke 1",
-                "close2 989999 2008000 1 10 22 0 1 1 21 34 0 0",
-                "close2 995000 2003000 1 10 22 0 1 1 21 34 0 0",
-                "close1 2 1 2 995000 10 22 0 1 2003000 21 34 0 0",
+                "close2 989999 2008000 1 10 22 RANK(10) 0 1 1 21 34 RANK(21) 0 0",
+                "close2 995000 2003000 1 10 22 RANK(10) 0 1 1 21 34 RANK(21) 0 0",
+                "close1 2 2 0 4294967295 1 2 995000 10 22 RANK(10) 0 1 2003000 21 34 RANK(21) 0 0",
             ]),
         ]
     }
@@ -261,7 +259,7 @@ impl Group for C07 {
                 0 | 1 | 2 => { let s = pick(rng, &[1, 2, 3, 4, 5, 6]); Dest { sid: s, spend: true, allow: allow.contains(&s) } }
                 3 => { let s = pick(rng, &[1, 2, 3, 4]); Dest { sid: s, spend: false, allow: allow.contains(&s) } }
                 4 | 5 => { let s = pick(rng, &[10, 11, 12]); Dest { sid: s, spend: false, allow: allow.contains(&s) } }
-                6 => { let s = pick(rng, &[20, 21, 22]); Dest { sid: s, spend: false, allow: false } }
+                6 => { let s = pick(rng, &[20, 21, 22]); Dest { sid: s, spend: false, allow: allow.contains(&s) } }
                 _ if upfront != 0 => Dest { sid: upfront, spend: up_spend && rng.chance(3, 4), allow: allow.contains(&upfront) },
                 _ => { let s = pick(rng, &[1, 2, 3, 4]); Dest { sid: s, spend: true, allow: allow.contains(&s) } }
             };
@@ -305,9 +303,9 @@ impl Group for C07 {
                 let hp = !(rng.chance(1, 12) || (hv == 0 && rng.chance(1, 2)));
                 let cp = !(rng.chance(1, 12) || (cv == 0 && rng.chance(1, 2)));
                 ops.push(format!(
-                    "close2 {} {} {} {} {} {} {} {} {} {} 0 {}",
-                    hv, cv, hp as u8, hd.sid, script_len(hd.sid), (hd.spend && is_wallet_sid(hd.sid)) as u8, hd.allow as u8,
-                    cp as u8, cd.sid, script_len(cd.sid), cd.allow as u8
+                    "close2 {} {} {} {} {} {} {} {} {} {} {} {} 0 {}",
+                    hv, cv, hp as u8, hd.sid, script_len(hd.sid), script_rank(hd.sid), (hd.spend && is_wallet_sid(hd.sid)) as u8, hd.allow as u8,
+                    cp as u8, cd.sid, script_len(cd.sid), script_rank(cd.sid), cd.allow as u8
                 ));
             } else {
                 // the transaction: outputs (value, sid, len, canSpend-under-its-path, allowlisted)
@@ -319,14 +317,15 @@ impl Group for C07 {
                 // canonical order = by (value, script bytes); sometimes the other order
                 outs.sort_by(|x, y| x.0.cmp(&y.0).then_with(|| script_bytes(x.1.sid).cmp(script_bytes(y.1.sid))));
                 if outs.len() == 2 && rng.chance(1, 8) { outs.swap(0, 1) }
-                let sorted = outs.windows(2).all(|w| (w[0].0, script_bytes(w[0].1.sid)) <= (w[1].0, script_bytes(w[1].1.sid)));
-                let nonzero = outs.iter().all(|o| o.0 > 0);
-                let mut canon = sorted && nonzero;
-                if canon && rng.chance(1, 12) { canon = false } // the harness perturbs the lock time
+                // header fields as the caller supplies them: mostly the canonical ones
+                let ver = if rng.chance(1, 20) { pick(rng, &[1, 3]) } else { 2 };
+                let lt = if rng.chance(1, 20) { pick(rng, &[1, 500_000, 4_294_967_295]) } else { 0 };
+                let sq = if rng.chance(1, 20) { pick(rng, &[0, 4_294_967_293, 4_294_967_294]) } else { 4_294_967_295 };
+                let op = if rng.chance(1, 20) { 2 } else { 1 };
                 let npaths = if rng.chance(1, 20) { outs.len() + 1 } else { outs.len() };
-                let mut l = format!("close1 {} {} {}", npaths, canon as u8, outs.len());
+                let mut l = format!("close1 {} {} {} {} {} {}", npaths, ver, lt, sq, op, outs.len());
                 for (v, dd) in &outs {
-                    l += &format!(" {} {} {} {} {}", v, dd.sid, script_len(dd.sid), (dd.spend && is_wallet_sid(dd.sid)) as u8, dd.allow as u8);
+                    l += &format!(" {} {} {} {} {} {}", v, dd.sid, script_len(dd.sid), script_rank(dd.sid), (dd.spend && is_wallet_sid(dd.sid)) as u8, dd.allow as u8);
                 }
                 ops.push(l);
             }
@@ -351,5 +350,5 @@ impl Group for C07 {
 }
 
 pub fn groups() -> Vec<Box<dyn Group>> {
-    vec![Box::new(C07)]
+    vec![Box::new(C07), Box::new(wire::C07Wire)]
 }
